@@ -9,7 +9,7 @@ import sys
 import traceback
 
 sys.path.insert(0, "/verif/tools")
-sys.path.insert(0, "/repo")
+sys.path.insert(0, os.environ.get("VERIF_REPO", "/repo"))
 
 
 def main():
